@@ -8,6 +8,7 @@ import (
 	"fmt"
 	"os"
 	"os/exec"
+	"os/signal"
 	"path/filepath"
 	"regexp"
 	"runtime"
@@ -115,6 +116,7 @@ func driverMain(args []string) int {
 		return 3
 	}
 	id := args[0]
+	signal.Ignore(syscall.SIGPIPE)
 	fs := flag.NewFlagSet("run", flag.ExitOnError)
 	tierF := fs.String("tier", envOr("VERIF_TIER", "quick"), "")
 	replay := fs.String("replay", "", "")
@@ -184,7 +186,7 @@ func driverMain(args []string) int {
 		cmd.Stdout = ef
 		cmd.Env = os.Environ()
 		if p.Race {
-			cmd.Env = append(cmd.Env, "GORACE=halt_on_error=0 history_size=5 log_path="+filepath.Join(scratch, fmt.Sprintf("race.%d.%d", sr.shard, seq)))
+			cmd.Env = append(cmd.Env, "GORACE=halt_on_error=0 exitcode=0 history_size=5 log_path="+filepath.Join(scratch, fmt.Sprintf("race.%d.%d", sr.shard, seq)))
 		}
 		cmd.Env = append(cmd.Env, "GOTRACEBACK=single", "GOMAXPROCS="+gomaxprocsFor(p, nshards))
 		sr.cmd = cmd
@@ -360,6 +362,10 @@ func driverMain(args []string) int {
 		fresh = append(fresh, v)
 	}
 
+	// evidence first (a closed stdout must not lose it)
+	wall := time.Since(t0).Seconds()
+	writeEvidence(p, tier, seed, merged, exhaustive, len(fresh), len(knownSeen), inconclusive, wall, nshards)
+
 	// replay files + VIOLATION lines
 	os.MkdirAll(filepath.Join(VerifDir(), "replay"), 0o755)
 	printed := map[string]bool{}
@@ -370,16 +376,18 @@ func driverMain(args []string) int {
 		}
 		printed[v.Key] = true
 		n++
+		if n > 25 {
+			continue
+		}
 		path := filepath.Join(VerifDir(), "replay", fmt.Sprintf("%s-%s.json", id, H([]byte(v.Key))))
 		writeJSON(path, map[string]any{"property_id": id, "tier": tier, "seed": seed, "case": v.Case, "key": v.Key, "what": v.What, "detail": v.Detail,
 			"replay": fmt.Sprintf("./check %s --replay %s", id, path)})
 		fmt.Printf("VIOLATION property=%s replay=%s\n", id, path)
 		fmt.Printf("  case=%d key=%s\n  %s\n", v.Case, v.Key, v.What)
 	}
-
-	// evidence
-	wall := time.Since(t0).Seconds()
-	writeEvidence(p, tier, seed, merged, exhaustive, len(fresh), len(knownSeen), inconclusive, wall, nshards)
+	if n > 25 {
+		fmt.Printf("  (%d further distinct violation keys not listed)\n", n-25)
+	}
 
 	fmt.Printf("%s tier=%s seed=%d evaluations=%d distinct_nontrivial=%d violations=%d known=%d wall=%.1fs\n", id, tier, seed, merged.Evaluations, len(merged.Distinct), len(fresh), len(knownSeen), wall)
 	keys := make([]string, 0, len(merged.Classes))
